@@ -57,6 +57,7 @@ type Case struct {
 	Hops     int    `json:",omitempty"` // extra redirect hops on the store
 	UpLoc    string `json:",omitempty"` // S's upload Location: "" | other-host | http-same-host
 	RedirTo  string `json:",omitempty"` // scheme of the redirect Location: https | http
+	Spell    bool   `json:",omitempty"` // the registry spells its own name with other letter case in the URLs it hands back (host names are case-insensitive)
 	Ops      []string
 }
 
@@ -229,13 +230,35 @@ func (w *world) ownerOf(host, repo string) string {
 	return regName
 }
 
+// spell: the name as the registry writes it in URLs that point back at itself
+func (w *world) spell(name string) string {
+	if w.c.Spell {
+		return strings.ToUpper(name[:1]) + name[1:2] + strings.ToUpper(name[2:3]) + name[3:]
+	}
+	return name
+}
+
 func (w *world) handle(req *http.Request, body []byte, n int) *http.Response {
 	w.mu.Lock()
 	defer w.mu.Unlock()
-	name := req.URL.Host
+	name := strings.ToLower(req.URL.Host) // host names are not case sensitive: R.Example is r.example
 	h := w.hosts[name]
 	if h == nil {
 		return memrt.Resp(502, nil, []byte("no such host"))
+	}
+	if name != req.URL.Host { // what arrives in clear text at the TLS port of a host is not served (what it carried is recorded first)
+		for _, sec := range w.scan(req, body) {
+			s := w.secrets[sec]
+			if s.kind == "cred" {
+				w.events = append(w.events, event{K: "cred", Owner: s.owner, Dest: name, Scheme: req.URL.Scheme})
+			} else {
+				w.events = append(w.events, event{K: "tok", Owner: s.owner, Issuer: s.issuer, Dest: name, Authed: s.authed, Scheme: req.URL.Scheme})
+			}
+		}
+		if req.URL.Scheme == "http" && h.spec.TLS {
+			return memrt.Resp(400, nil, []byte("Client sent an HTTP request to an HTTPS server."))
+		}
+		return memrt.Resp(404, nil, nil)
 	}
 	pos := h.nreq
 	h.nreq++
@@ -344,7 +367,7 @@ func (w *world) handle(req *http.Request, body []byte, n int) *http.Response {
 		}
 		if w.c.Redirect == name { // same host, other scheme: serve it from the registry on the second request
 			if req.URL.Query().Get("redirected") == "" {
-				return memrt.Resp(307, map[string]string{"Location": fmt.Sprintf("%s://%s%s?redirected=1", sch, name, req.URL.Path)}, nil)
+				return memrt.Resp(307, map[string]string{"Location": fmt.Sprintf("%s://%s%s?redirected=1", sch, w.spell(name), req.URL.Path)}, nil)
 			}
 		} else {
 			return memrt.Resp(307, map[string]string{"Location": loc}, nil)
@@ -359,7 +382,7 @@ func (w *world) handle(req *http.Request, body []byte, n int) *http.Response {
 		case "other-host":
 			resp.Header.Set("Location", "https://u.example/up/s.example"+loc)
 		case "http-same-host":
-			resp.Header.Set("Location", "http://s.example"+loc)
+			resp.Header.Set("Location", "http://"+w.spell("s.example")+loc)
 		}
 	}
 	return resp
@@ -769,6 +792,7 @@ func genCase(r *lib.Rand) Case {
 			c.Redirect, c.Hops = "r.example", 0
 			c.RedirTo = lib.Pick(r, []string{"http", "https"})
 			c.Hosts[0].TLS = true
+			c.Spell = r.Chance(40)
 		}
 	case k < 80:
 		c.Kind = "external"
@@ -779,6 +803,7 @@ func genCase(r *lib.Rand) Case {
 		S.TLS = true
 		c.Hosts = append(c.Hosts, S, third("u.example"))
 		c.UpLoc = lib.Pick(r, []string{"other-host", "http-same-host", ""})
+		c.Spell = c.UpLoc == "http-same-host" && r.Chance(40)
 		c.Ops = []string{"put", "copy"}
 	default:
 		c.Kind = "mixed"
@@ -823,6 +848,8 @@ func Run(o lib.Opts) {
 		{Kind: "upload", Seed: 43, UpLoc: "http-same-host", Ops: []string{"put"}, Hosts: []HostSpec{{Name: "r.example", TLS: true, Auth: "basic"}, {Name: "s.example", TLS: true, Auth: "basic"}}},
 		{Kind: "upload", Seed: 44, UpLoc: "other-host", Ops: []string{"put"}, Hosts: []HostSpec{{Name: "r.example", TLS: true, Auth: "basic"}, {Name: "s.example", TLS: true, Auth: "basic"},
 			{Name: "u.example", TLS: true, Auth: "none", Chal: "basic", Deny: []int{0}}}},
+		{Kind: "upload", Seed: 47, UpLoc: "http-same-host", Spell: true, Ops: []string{"put", "put"}, Hosts: []HostSpec{{Name: "r.example", TLS: true, Auth: "basic"}, {Name: "s.example", TLS: true, Auth: "basic"}}},
+		{Kind: "redirect", Seed: 48, Redirect: "r.example", RedirTo: "http", Spell: true, Ops: []string{"manifest", "blob", "blob"}, Hosts: []HostSpec{{Name: "r.example", TLS: true, Auth: "bearer", Realm: "auth-r.example"}, {Name: "auth-r.example", TLS: true, Auth: "none"}}},
 		{Kind: "copy", Seed: 46, Ops: []string{"manifest", "manifest", "tags"}, Hosts: []HostSpec{{Name: "r.example", TLS: true, Auth: "basic", Reset: []int{2, 4}}}},
 		{Kind: "mirror", Seed: 45, Ops: []string{"manifest", "blob", "tags"}, Hosts: []HostSpec{{Name: "r.example", TLS: true, Auth: "basic", Mirror: "m.example"}, {Name: "m.example", TLS: true, Auth: "basic", Deny: []int{1}}}},
 	}
